@@ -497,6 +497,17 @@ pub fn c18(ctx: &mut Ctx) {
             _ => gen_clause(&mut r, &corpus, 10, 2),
         };
         text = text.replace('\n', " ").replace('\r', " ");
+        // still one paragraph: a line end after the text, or one soft line break inside it (LF or CRLF)
+        match r.below(12) {
+            0 => text.push('\n'),
+            1 => text.push_str("\r\n"),
+            2 | 3 => {
+                if let Some(at) = text.char_indices().filter(|(_, c)| *c == ' ').map(|(i, _)| i).nth(r.below(4)) {
+                    text.replace_range(at..at + 1, if r.chance(1, 2) { "\n" } else { "\r\n" });
+                }
+            }
+            _ => {}
+        }
         if !ctx.begin_case(|| json!({"fam": "c18", "text": text}).to_string()) {
             continue;
         }
